@@ -136,6 +136,21 @@ def check_dfs(meta, stats):
     stats.count(f"dfs_{'complete' if not stack else 'truncated'}:{meta['dfs']}")
 
 
+_FRESH = {}
+
+
+def _module_state():
+    import panoptica.panoptica_aggregator as A
+
+    return {k: id(v.real) if isinstance(v, sched.SchedLock) else id(v) for k, v in vars(A).items() if not k.startswith("__")}
+
+
+def ensure_fresh_module():
+    if _FRESH.get("pid") != os.getpid() or _FRESH.get("state") != _module_state():
+        H.fresh_aggregator_locks()
+        _FRESH["pid"], _FRESH["state"] = os.getpid(), _module_state()
+
+
 def arrays(k):
     p, r = INPUTS[k]
     return np.array(p, dtype=np.uint8), np.array(r, dtype=np.uint8)
@@ -184,8 +199,10 @@ def check(case, stats):
     with H.quiet():
         exp = expected_rows()
     header = exp["header"]
-    # every case starts from the module state a fresh interpreter would have (no lock was ever used before)
-    H.fresh_aggregator_locks()
+    # every case starts from the module state a fresh interpreter would have (no lock was ever used before): the
+    # aggregator module is re-executed whenever its globals were rebound since the last fresh state (e.g. locks
+    # created lazily). Re-executing unconditionally would pile up whatever the module registers at import time.
+    ensure_fresh_module()
     from panoptica.panoptica_aggregator import Panoptica_Aggregator
     d = tempfile.mkdtemp(prefix="pv_c16_")
     snapshots = {}
@@ -224,6 +241,7 @@ def check(case, stats):
         except sched.Deadlock as e:
             # the parked tasks keep their real locks for ever: give later cases fresh module-level locks
             H.fresh_aggregator_locks()
+            _FRESH.clear()
             raise Violation(f"deadlock: {e}")
         except sched.Stuck as e:
             raise H.HarnessError(str(e))
@@ -238,6 +256,7 @@ def check(case, stats):
                     leaked.append(name)
         if leaked:
             H.fresh_aggregator_locks()
+            _FRESH.clear()
             raise Violation(f"lock(s) {leaked} still held after every call returned: the next call on this aggregator blocks for ever")
         ncoll = len([t for t in case["tasks"] if t["op"] == "evaluate"]) - len({t["subject"] for t in case["tasks"] if t["op"] == "evaluate"})
         stats.record(case, ctl.preempt_in_window >= 1,
